@@ -1,6 +1,7 @@
 package tlbx
 
 import (
+	"fmt"
 	"math/big"
 	"math/rand"
 	"reflect"
@@ -19,6 +20,21 @@ type GenCtx struct {
 	Cov       map[string]int // coverage: "<type>.<ctor>", "uint<n>:<class>", "varuint<n>:len<k>", …
 	depth     int
 	budget    int // rough bit budget of the current cell, to keep most values encodable
+	cursor    map[string]int
+}
+
+// class picks one of n boundary classes for the call site `site`: round-robin (so that every class of every site is
+// hit after n values), with a random start
+func (g *GenCtx) class(site string, n int) int {
+	if g.cursor == nil {
+		g.cursor = map[string]int{}
+	}
+	c, ok := g.cursor[site]
+	if !ok {
+		c = g.Rng.Intn(n)
+	}
+	g.cursor[site] = c + 1
+	return c % n
 }
 
 func NewGenCtx(rng *rand.Rand, u *Universe) *GenCtx {
@@ -38,7 +54,7 @@ func (g *GenCtx) randBig(bits int) *big.Int {
 
 // UintValue picks a value in [0, 2^n): 0, 1, max, top bit, random.
 func (g *GenCtx) UintValue(n int) (*big.Int, string) {
-	switch g.Rng.Intn(6) {
+	switch g.class(fmt.Sprint("u", n), 6) {
 	case 0:
 		return big.NewInt(0), "zero"
 	case 1:
@@ -57,7 +73,7 @@ func (g *GenCtx) UintValue(n int) (*big.Int, string) {
 // IntValue picks a value in [-2^(n-1), 2^(n-1)): min, max, -1, 0, 1, random.
 func (g *GenCtx) IntValue(n int) (*big.Int, string) {
 	half := pow2(n - 1)
-	switch g.Rng.Intn(7) {
+	switch g.class(fmt.Sprint("i", n), 7) {
 	case 0:
 		return new(big.Int).Neg(half), "min"
 	case 1:
@@ -351,7 +367,7 @@ func (g *GenCtx) genPrim(d *Desc, v reflect.Value) {
 		v.Set(reflect.ValueOf(*c).Convert(v.Type()))
 	case "varUint":
 		// every byte length 0..n-1, exactly that many significant bytes
-		l := g.Rng.Intn(d.N)
+		l := g.class(fmt.Sprint("varuint", d.N), d.N)
 		x := big.NewInt(0)
 		if l > 0 {
 			x = g.randBig(8 * l)
@@ -372,7 +388,7 @@ func (g *GenCtx) genPrim(d *Desc, v reflect.Value) {
 		setBig(v, x)
 	case "grams":
 		var x uint64
-		switch g.Rng.Intn(8) {
+		switch g.class("grams", 8) {
 		case 0:
 			x = 0
 		case 1:
@@ -389,7 +405,7 @@ func (g *GenCtx) genPrim(d *Desc, v reflect.Value) {
 		v.SetUint(x)
 	case "signedCoins":
 		var x int64
-		switch g.Rng.Intn(7) {
+		switch g.class("signedcoins", 7) {
 		case 0:
 			x = 0
 		case 1:
